@@ -140,6 +140,12 @@ func flight3Parse(
 		cfg.Log.Tracef("[handshake] use cipher suite: %s", selectedCipherSuite.String())
 
 		if len(serverHelloMsg.SessionID) > 0 && bytes.Equal(state.SessionID, serverHelloMsg.SessionID) {
+			// The stored session was made with the extended master secret; a
+			// server that resumes it without the extension is refused.
+			// https://www.rfc-editor.org/rfc/rfc7627#section-5.3
+			if !state.ExtendedMasterSecret {
+				return 0, &alert.Alert{Level: alert.Fatal, Description: alert.HandshakeFailure}, dtlserrors.ErrClientRequiredButNoServerEMS //nolint:lll
+			}
 			next, dtlsAlert, err := handleResumption(ctx, conn, state, cache, cfg)
 			if next != 0 && err == nil {
 				state.CommitNegotiatedExtensions(decision)
